@@ -30,6 +30,10 @@
       CDSFeature.from_biopython (table choice), _ensure_valid_translation (generation branch),
       Record.get_aa_translation_from_location, CDSFeature.translation setter → `cdsTable`, `aaTranslation`, `forceMet`,
       `cdsGeneratedTranslation`
+    antismash/common/secmet/record.py / locations.py  (features read back)
+      Record.from_biopython (per-feature location handling: misc_feature prefilter), location_bridges_origin with
+      `allow_reversing` and its in-place reversal, remove_redundant_exons (shared `ASV.removeRedundantExons`)
+        → `readLocation`, `bridgesOriginAR`
   No imports outside ASV.Model (driver-linkable).
 -/
 import ASV.Model.Loc
@@ -268,6 +272,32 @@ def forceMet : List Char → List Char
     under table `t` -/
 def cdsGeneratedTranslation (tr : Nat → List Char) (recordTable : Nat) (qual : Option Nat) : List Char :=
   forceMet (aaTranslation (tr (cdsTable recordTable qual)))
+
+/-! ### features read back through `Record.from_biopython` (antiSMASH output re-read, --reuse-results) -/
+
+/-- `check(location)` inside `location_bridges_origin` for a reverse-strand location is `orderInvalid true`; the
+    function with its `allow_reversing` flag, INCLUDING its effect on `location.parts` (Python reverses the list in
+    place and leaves it reversed when the reversed order is valid): returns (answer, parts afterwards) -/
+def bridgesOriginAR (allowReversing : Bool) (l : Loc) : Bool × Loc :=
+  match l with
+  | .simple _ => (false, l)
+  | .compound ps =>
+    match l.strand with
+    | .fwd => (orderInvalid false ps, l)
+    | .rev =>
+      if orderInvalid true ps then
+        if allowReversing then
+          if !orderInvalid true ps.reverse then (false, .compound ps.reverse) else (true, l)
+        else (true, l)
+      else (false, l)
+    | _ => (bridgesOrigin l, l)
+
+/-- what `Record.from_biopython` does to the location of one feature of a record that can be circular
+    (`taxon == "bacteria"`): only a misc_feature that bridges the origin is passed through `remove_redundant_exons`;
+    the test is made with `allow_reversing=False` and therefore touches nothing -/
+def readLocation (canBeCircular isMisc : Bool) (l : Loc) : Loc :=
+  let (bridges, l') := bridgesOriginAR false l
+  if canBeCircular && isMisc && bridges then removeRedundantExons l' else l'
 
 /-! ### write-out / rebuild of a prepeptide: `to_biopython` → `Prepeptide.from_biopython` -/
 
